@@ -331,8 +331,8 @@ def check(ctx, run):
     from .shared import testfailure_ctor_table
     testfailure_ctor_table(prog, run, "R3")
     g = prog.fn("TestFailure::getTestNameOnly")
-    rets = [render(g, g.node(n.get("value"))) for n in g.walk() if n["k"] == "ReturnStmt"]
-    run.ob("R3", "getTestNameOnly returns testNameOnly_", g.site, rets == ["testNameOnly_"], witness=rets)
+    rets = getter_fold(prog, g, "testNameOnly_", token=("str", "token-424242"))
+    run.ob("R3", "getTestNameOnly returns testNameOnly_ (folded)", g.site, rets == ("str", "token-424242"), witness=rets)
 
     # ---------------- R4 ---------------------------------------------------
     for rq, oq in (("currentTestStarted", "printCurrentTestStarted"), ("currentTestEnded", "printCurrentTestEnded"),
